@@ -37,7 +37,13 @@ from .constants import DIAMETER_AGENT_CLIENT_MODE
 from .constants import DIAMETER_AGENT_SERVER_MODE
 from .constants import DIAMETER_AGENT_TRANSPORT_TYPE_TCP
 from .constants import DIAMETER_AGENT_TRANSPORT_TYPE_SCTP
+from .exceptions import AVPAttributeValueError
 from .exceptions import AVPParsingError
+from .exceptions import DataTypeError
+from .exceptions import DiameterAvpError
+from .exceptions import DiameterHeaderAttributeValueError
+from .exceptions import DiameterHeaderError
+from .exceptions import DiameterMessageError
 from .exceptions import DiameterApplicationError
 from .exceptions import DiameterAssociationError
 from .messages import DiameterAnswer
@@ -51,6 +57,11 @@ from .transport import SctpClient
 from .transport import SctpServer
 from .utils import is_base_request
 from .utils import is_base_answer
+
+#: Library errors raised while decoding a malformed byte stream.
+DECODING_ERRORS = (AVPParsingError, AVPAttributeValueError, DataTypeError,
+                   DiameterAvpError, DiameterHeaderError,
+                   DiameterHeaderAttributeValueError, DiameterMessageError)
 
 diameter_conn_logger = logging.getLogger("DiameterConnection")
 diameter_logger = logging.getLogger("Diameter")
@@ -166,32 +177,29 @@ class DiameterAssociation(object):
         while not self._stop_threads and self.transport:
             self.transport._recv_data_available.wait(timeout=1)
 
-            self.lock.acquire()
+            with self.lock:
+                if self.transport is None:
+                    break
 
-            if self.transport is None:
-                break
+                data_stream = copy.copy(self.transport._recv_data_stream)
+                self.transport._recv_data_stream = b""
+                self.transport._recv_data_available.clear()
 
-            data_stream = copy.copy(self.transport._recv_data_stream)
-            self.transport._recv_data_stream = b""
-            self.transport._recv_data_available.clear()
+                diameter_conn_logger.debug("Grabbing data stream from "\
+                                           "Transport Layer to Diameter Layer.")
 
-            diameter_conn_logger.debug("Grabbing data stream from "\
-                                       "Transport Layer to Diameter Layer.")
+                try:
+                    msgs = DiameterMessage.load(data_stream)
+                    for msg in msgs:
+                        make_logging(msg, disable_else=True)
+                        self._recv_messages.put(msg)
 
-            try:
-                msgs = DiameterMessage.load(data_stream)
-                for msg in msgs:
-                    make_logging(msg, disable_else=True)
-                    self._recv_messages.put(msg)
-                
-                diameter_conn_logger.debug(f"Found {len(msgs)} Diameter "\
-                                           f"Message(s).")
-            except AVPParsingError:
-                diameter_conn_logger.exception(f"AVPParsingError has "\
-                                               f"been raised due stream: "\
-                                               f"{self.transport._recv_data_stream.hex()}")
-
-            self.lock.release()
+                    diameter_conn_logger.debug(f"Found {len(msgs)} Diameter "\
+                                               f"Message(s).")
+                except DECODING_ERRORS:
+                    diameter_conn_logger.exception(f"A decoding error has "\
+                                                   f"been raised due stream: "\
+                                                   f"{data_stream.hex()}")
 
 
     def put_message_into_send_queue(self, msg: Type[DiameterMessage]) -> None:
